@@ -366,16 +366,18 @@ Qed.
 (** timeouts through a client that only verifies at heights the chain itself has reached and reports the
     chain's own block time (09-localhost after the fix): accepted only when the chain itself has reached
     the packet's timeout *)
-Definition loopback_env e c : Prop :=
-  (forall id ph k, e_vnon e id ph k = true -> h_lte ph (self_h c) = true) /\
-  (forall id ph k v, e_vmem e id ph k v = true -> h_lte ph (self_h c) = true) /\
-  (forall id ph t, e_ts e id ph = Some t -> t = self_t c).
+Definition loopback_client e c (id : Id) : Prop :=
+  (forall ph k, e_vnon e id ph k = true -> h_lte ph (self_h c) = true) /\
+  (forall ph k v, e_vmem e id ph k v = true -> h_lte ph (self_h c) = true) /\
+  (forall ph t, e_ts e id ph = Some t -> t = self_t c).
 
-Theorem loopback_timeout_not_early e c p ph nsr c' :
-  loopback_env e c -> timeout1_tao e c p ph nsr = (c', Ok) -> elapsed (timeout1 p) (self_h c) (self_t c) = true.
+Theorem loopback_timeout_not_early e c p ph nsr c' ch k :
+  chans c (p_sp p, p_sc p) = Some ch -> conns c (c_conn ch) = Some k -> loopback_client e c (k_client k) ->
+  timeout1_tao e c p ph nsr = (c', Ok) -> elapsed (timeout1 p) (self_h c) (self_t c) = true.
 Proof.
-  intros [Hn [Hm Ht]] H. apply timeout1_tao_ok in H.
-  destruct H as [ch [k [pts [_ [_ [_ [_ [Hts [Hel [_ [Hv _]]]]]]]]]]].
+  intros Hch Hk [Hn [Hm Ht]] H. apply timeout1_tao_ok in H.
+  destruct H as [ch' [k' [pts [Hch' [_ [_ [Hk' [Hts [Hel [_ [Hv _]]]]]]]]]]].
+  rewrite Hch in Hch'. inversion Hch'; subst ch'. rewrite Hk in Hk'. inversion Hk'; subst k'.
   apply Ht in Hts. subst pts.
   assert (h_lte ph (self_h c) = true) as Hle.
   { unfold verify_unreceived in Hv. destruct (c_ord ch).
